@@ -11,7 +11,7 @@ macro_rules! backend_lanewise {
             #[kani::proof]
             #[kani::stub(core::arch::x86_64::_mm_max_epu8, kmodels::mm_max_epu8)]
             #[kani::stub(core::arch::x86_64::_mm256_max_epu8, intrinsics::mm256_max_epu8)]
-            fn u8x32() {
+            pub(super) fn u8x32() {
                 let a: [u8; 32] = kani::any();
                 let b: [u8; 32] = kani::any();
                 let (va, vb) = unsafe { (u8x32::loadu(a.as_ptr()), u8x32::loadu(b.as_ptr())) };
@@ -31,7 +31,7 @@ macro_rules! backend_lanewise {
             }
 
             #[kani::proof]
-            fn i8x32() {
+            pub(super) fn i8x32() {
                 let a: [u8; 32] = kani::any();
                 let b: [u8; 32] = kani::any();
                 let (va, vb) = unsafe { (i8x32::loadu(a.as_ptr()), i8x32::loadu(b.as_ptr())) };
@@ -54,7 +54,7 @@ macro_rules! backend_lanewise {
             #[kani::proof]
             #[kani::stub(core::arch::x86_64::_mm_max_epu8, kmodels::mm_max_epu8)]
             #[kani::stub(core::arch::x86_64::_mm256_max_epu8, intrinsics::mm256_max_epu8)]
-            fn u8x64() {
+            pub(super) fn u8x64() {
                 let a: [u8; 64] = kani::any();
                 let b: [u8; 64] = kani::any();
                 let (va, vb) = unsafe { (u8x64::loadu(a.as_ptr()), u8x64::loadu(b.as_ptr())) };
@@ -68,7 +68,7 @@ macro_rules! backend_lanewise {
             }
 
             #[kani::proof]
-            fn mask_ops() {
+            pub(super) fn mask_ops() {
                 let a: [u8; 32] = kani::any();
                 let x: u8 = kani::any();
                 let y: u8 = kani::any();
